@@ -24,8 +24,9 @@ ClassOK(h, v, placeholder) ==
     [] h.c = "float"  -> TRUE
     [] h.c = "bool"   -> TRUE
     [] h.c = "name"   -> TRUE
-    [] h.c = "graphtext" -> TextOK(v, h.a)
-    [] h.c = "difftext"  -> DiffTextOK(v, h.a, h.b)
+    \* what the texts say is extended coverage (Trace.JudgeStep reports it under EXT), not part of matching
+    [] h.c = "graphtext" -> TRUE
+    [] h.c = "difftext"  -> TRUE
     [] h.c = "item"   -> TRUE
     [] h.c = "between" -> /\ Range(h.a) \subseteq Range(v) /\ Range(v) \subseteq Range(h.b)
                           /\ \A i \in 1..(Len(v) - 1) : v[i] < v[i + 1]
